@@ -171,8 +171,11 @@ def run_impl(case):
         msg = ResultMessage.recv_body(io.BytesIO(body), pv, {}, meta, pol)
         rows = msg.parsed_rows
         res['decoded'] = [[canon(x) for x in r] for r in rows]
-        res['decoded_ser'] = [[None if x is None else bytes(types[i].serialize(x, pv)) for i, x in enumerate(r)] for r in rows]
         res['decode_err'] = None
+        try:
+            res['decoded_ser'] = [[None if x is None else bytes(types[i].serialize(x, pv)) for i, x in enumerate(r)] for r in rows]
+        except Exception:
+            res['decoded_ser'] = None      # decoded values of the wrong Python type: the oracle reports decode.differs
     except Exception as e:
         res['decoded'] = None
         res['decode_err'] = '%s: %s' % (type(e).__name__, str(e)[:300])
